@@ -124,7 +124,8 @@ theorem store_keys_never_exceed (K : List Str) (ops : List StoreOp) (hK : ∀ k 
 
 /-- A full reply to a validation is stored under the variant id of the CLIENT's request (the foreground
     validation of `roundTrip` hands `req.header` to the handler; the conditional request with the cache's
-    own If-None-Match / If-Modified-Since only goes upstream), a 304 under the id the entry already had:
+    own If-None-Match / If-Modified-Since only goes upstream), a 304 under the id the entry already had
+    (or, when it changes the Vary field, likewise under the variant id of the client's request):
     a validator the cache added never becomes part of a variant key, so `Vary: If-None-Match` with
     changing ETags cannot make the footprint grow (the defect repaired by c3b3c83) -/
 theorem validation_result_keyed_by_client_request (cfg : Cfg) (t0 : Int) (req : Req) (stored : Entry) (key : Str)
@@ -141,7 +142,9 @@ theorem validation_result_keyed_by_client_request (cfg : Cfg) (t0 : Int) (req : 
     simp only [List.mem_cons, reduceCtorEq, false_or] at hm
     rcases validation_store_ids cfg req.header key stored refs (some i) f (parseCC req.header) mv t0 (fixAns cfg ans) _ res h1 id en ok hm with h' | ⟨r, _, _, _, h'⟩
     · exact Or.inl h'
-    · exact Or.inr ⟨r, h'⟩
+    · rcases h' with h' | h'
+      · exact Or.inr ⟨r, h'⟩
+      · exact Or.inr ⟨_, h'⟩
 
 /-- non-vacuity (a test): an index reached by two stores of the same variant and one of another -/
 example : ReachableIndex [((str% "k#0"), [], []), ((str% "k#1"), (str% "X-A"), [((str% "X-A"), (str% "1"))])]
